@@ -220,6 +220,12 @@ pub fn vp_chunks_exact_map<'a, R, F: Fn(&'a [u8]) -> R + 'a>(s: &'a [u8], n: usi
     s.chunks_exact(n).map(f)
 }
 
+// ---- A-box: `Borrow<T> for Box<T>` returns the boxed value (std fact; used by FciBuilderWrapper::{deref, as_ref}) ----
+pub assume_specification<T: ?Sized, A: core::alloc::Allocator>[ <Box<T, A> as std::borrow::Borrow<T>>::borrow ](b: &Box<T, A>) -> (r: &T)
+    ensures
+        r == &**b,
+;
+
 // ---- A-cow: Cow fields. Ghost byte views + explicit deref wrappers (rule R16) --------------------
 pub uninterp spec fn cow_str_bytes(c: &std::borrow::Cow<'_, str>) -> Seq<u8>;
 
